@@ -781,17 +781,17 @@ func VH_C19_transform_Q() {
 	text, spec := vhC19TransformFn(k1, argSep)
 	fnSep, k2 := 0, -1
 	if n == 2 {
-		fnSep = vChoose(0, 2)
+		fnSep = vChoose(0, 4)
 		k2 = vChoose(0, 8)
 		t2, m2 := vhC19TransformFn(k2, argSep)
-		text += []string{" ", "", ", "}[fnSep] + t2
+		text += []string{" ", "", ", ", " ,", " , "}[fnSep] + t2
 		spec = spec.mul(m2)
 	}
 	m := svg.parseTransform(text)
 	vAssert("C19.transform.no_error", svg.err == nil)
 	// skewX/skewY are not implemented (silently ignored); a comma between two functions makes
 	// the second one unknown (silently ignored)
-	vKnown("D32", k1 >= 7 || k2 >= 7 || n == 2 && fnSep == 2)
+	vKnown("D32", k1 >= 7 || k2 >= 7 || n == 2 && fnSep >= 2)
 	vAssert("C19.transform.matrix", vhC19AffMatches(m, spec))
 
 	// nesting: an element's transform is post-multiplied to the current view and restored on pop
